@@ -38,6 +38,7 @@ import (
 
 	"cloud.google.com/go/compute/metadata"
 	"github.com/google/inverting-proxy/agent/metrics"
+	"github.com/google/inverting-proxy/verifhook"
 )
 
 const (
@@ -391,6 +392,7 @@ func postResponseWithRetries(client *http.Client, proxyURL, backendID, requestID
 		attemptBody := newAttemptBody(proxyReadSeeker)
 		attemptReq := proxyReq.Clone(proxyReq.Context())
 		attemptReq.Body = attemptBody
+		verifhook.At("utils.post.attempt")
 		if proxyResp, err = client.Do(attemptReq); err != nil {
 			// We must not rewind (or read from) the underlying reader
 			// while the failed attempt might still be reading from it.
